@@ -200,6 +200,7 @@ def run(tier):
     n_gen = 120 if tier == "quick" else 2500
     for prof, share in (("mixed", 0.5), ("strings", 0.2), ("enums", 0.15), ("closures", 0.15)):
         programs += pc.generated_programs(d, max(1, int(n_gen * share)), SEED, prof)
+    programs += pc.corpus_dir_programs("c04")      # equality of enum values across representations
     programs += pc.corpus_dir_programs("c03")      # hand-written feature programs (struct patterns, generics through bounds, nested generic lambdas)
     precs = pc.run_programs(d, "progs", programs, [31] if tier == "quick" else [0, 31])
     fails += pc.judge_obs(PID, "ObsC04.cfg", precs, "c04", "repository + generated programs", stats, d)
